@@ -208,7 +208,9 @@ class C12(Monitor):
                                 ctx.count("c12_public_requests_in_fleet_states")
                                 if r.dispatched_vehicle:
                                     ctx.count("c12_assigned_public_requests")
-                _, ins = Dispatcher(cfg2).generate_instructions(s2, env2)
+                # the settings in force are the environment's (a co-simulation client may replace them between calls);
+                # every other invocation uses a dispatcher that was built with the old settings
+                _, ins = Dispatcher(cfg2 if rep == 0 else cfg).generate_instructions(s2, env2)
                 ctx.count("c12_direct_invocations")
                 check_dispatch(s2, env2, ins, ctx.violate, ctx.count, ctx.seen)
                 for st in states:
